@@ -14,7 +14,7 @@ use crate::Cfg;
 pub const FLOORS: &[&str] = &[
     "paused_on_directive_break", "paused_on_runtime_break", "paused_at_halt", "paused_outside_user_space",
     "paused_at_ffff", "ended_by_quit", "ended_by_eof", "end:returned", "end:exit_238", "end:exit_1",
-    "malformed_command_in_script", "feature:loop", "feature:self_modify", "feature:nested_call",
+    "malformed_command_in_script", "blank_command_in_script", "feature:loop", "feature:self_modify", "feature:nested_call",
 ];
 
 const FUEL: u64 = 15_000;
@@ -144,6 +144,12 @@ fn one_case(seed: u64, i: u64) -> CaseOut {
     let mut lines = Vec::new();
     let mut any_malformed = false;
     for _ in 0..rng.below(13) {
+        if rng.chance(1, 12) {
+            // a command consisting of blanks only (between two separators): ignored like an empty one
+            lines.push(rng.s(&[" ", "   ", "", "\t", " \t "]).to_string());
+            out.class("blank_command_in_script");
+            continue;
+        }
         let (l, m) = line(&mut rng, &img);
         any_malformed |= m;
         lines.push(l);
